@@ -2,7 +2,11 @@ package main
 
 import (
 	"fmt"
+	"strconv"
 	"strings"
+	"time"
+
+	pbredis "github.com/samaritan-proxy/samaritan/pb/config/protocol/redis"
 
 	"verifharness/hx"
 )
@@ -18,8 +22,66 @@ func (c03) Rule() string {
 		"Non-trivial = a multi-key command over more than one node, or a binary key/value, or a scattered layout; distinct by op line"
 }
 
+// c03.cold <n>   a two-node cluster with an unchanging layout, both nodes configured; every node takes 30 ms per command, so the first
+// CLUSTER NODES answer is a while away when the first client arrives; it pipelines n INCR of one key on one connection.
+//
+//	-> vals=<the n replies>   (a single server answers 1,2,…,n)
+func c03Cold(n int) string {
+	fc, err := hx.NewFakeCluster(2)
+	if err != nil {
+		return "sockerr"
+	}
+	defer fc.Close()
+	for s := 0; s < 16384; s++ {
+		fc.SetOwner(s, s%2)
+	}
+	fc.Delay(0, 30*time.Millisecond)
+	fc.Delay(1, 30*time.Millisecond)
+	p, err := hx.NewRedisProc(fc, 2, pbredis.ReadStrategy_MASTER)
+	if err != nil {
+		return "procerr"
+	}
+	defer hx.DropScopes("service." + p.Name() + ".")
+	defer func() {
+		done := make(chan struct{})
+		go func() { p.Stop(); close(done) }()
+		select {
+		case <-done:
+		case <-time.After(3 * time.Second):
+		}
+	}()
+	cl, err := hx.DialClient(p.Address())
+	if err != nil {
+		return "sockerr"
+	}
+	defer cl.C.Close()
+	for i := 0; i < n; i++ {
+		if err := cl.Write([]byte("incr"), []byte("key:cold")); err != nil {
+			return "sockerr"
+		}
+	}
+	var vals []string
+	for i := 0; i < n; i++ {
+		cl.C.SetReadDeadline(time.Now().Add(5 * time.Second))
+		v, err := cl.Reply()
+		if err != nil {
+			vals = append(vals, "!none")
+			break
+		}
+		vals = append(vals, clusterRender(v))
+	}
+	return "vals=" + strings.Join(vals, ",")
+}
+
 func (c03) Exec(op string) string {
 	f := hx.Fields(op)
+	if len(f) == 2 && f[0] == "c03.cold" {
+		n, err := strconv.Atoi(f[1])
+		if err != nil || n < 1 || n > 64 {
+			return "bad-op"
+		}
+		return recoverStr(func() string { return c03Cold(n) })
+	}
 	if len(f) < 4 || f[0] != "c03.cl" {
 		return "bad-op"
 	}
